@@ -191,11 +191,13 @@ pub struct Interp<'a> {
     pub log: Vec<CallRec>,
     /// number of assignment nodes *reached* (children evaluated successfully)
     pub assignments_reached: usize,
+    /// operands of the integer operation that raised the last arithmetic error
+    pub last_arith: Option<Vec<RV>>,
 }
 
 impl<'a> Interp<'a> {
     pub fn new(ctx: &'a mut Ctx, mutable: bool, unit: Unit) -> Self {
-        Interp { ctx, mutable, unit, log: Vec::new(), assignments_reached: 0 }
+        Interp { ctx, mutable, unit, log: Vec::new(), assignments_reached: 0, last_arith: None }
     }
 
     pub fn call(&mut self, name: &str, arg: &RV) -> RR {
@@ -226,7 +228,11 @@ impl<'a> Interp<'a> {
             },
             Neg(x) => {
                 let v = self.eval(x)?;
-                ops::neg(&v)
+                let r = ops::neg(&v);
+                if let Err(RE::Arith) = &r {
+                    self.last_arith = Some(vec![v.clone()]);
+                }
+                r
             },
             Not(x) => {
                 let v = self.eval(x)?;
@@ -238,6 +244,10 @@ impl<'a> Interp<'a> {
                 match ops::binop(*op, &a, &b) {
                     // D8 inside a larger program: the continuation is ambiguous
                     Err(RE::ArithOr(_)) => Err(RE::Unclaimed("D8 inside a program")),
+                    Err(RE::Arith) => {
+                        self.last_arith = Some(vec![a.clone(), b.clone()]);
+                        Err(RE::Arith)
+                    },
                     other => other,
                 }
             },
@@ -258,6 +268,10 @@ impl<'a> Interp<'a> {
                         };
                         let r = match ops::binop(bop, &cur, &v) {
                             Err(RE::ArithOr(_)) => return Err(RE::Unclaimed("D8 inside a program")),
+                            Err(RE::Arith) => {
+                                self.last_arith = Some(vec![cur.clone(), v.clone()]);
+                                return Err(RE::Arith);
+                            },
                             other => other?,
                         };
                         self.ctx.set(name, r)?;
@@ -289,4 +303,17 @@ pub fn run(a: &Ast, ctx: &mut Ctx, mutable: bool, unit: Unit) -> (RR, Vec<CallRe
     let mut it = Interp::new(ctx, mutable, unit);
     let r = it.eval(a);
     (r, it.log, it.assignments_reached)
+}
+
+pub struct RunOut {
+    pub result: RR,
+    pub log: Vec<CallRec>,
+    pub assignments_reached: usize,
+    pub arith_operands: Option<Vec<RV>>,
+}
+
+pub fn run_full(a: &Ast, ctx: &mut Ctx, mutable: bool, unit: Unit) -> RunOut {
+    let mut it = Interp::new(ctx, mutable, unit);
+    let result = it.eval(a);
+    RunOut { result, log: it.log, assignments_reached: it.assignments_reached, arith_operands: it.last_arith }
 }
